@@ -306,6 +306,8 @@ class Run(object):
                 self.proto.connectionLost(failure.Failure(error.ConnectionLost("injected")))
             elif a == "StopListening":
                 self.fired[0].stopListening()
+            elif a == "StartListening":
+                self.fired[0].startListening()
             else:
                 raise ValueError(a)
         except Exception:
@@ -381,7 +383,7 @@ def script_for(cfg, fault):
 
 
 SCRIPTS = {
-    "none": ["Listen", "ConfigReady", "CreateReply", "WaitOver", "UnsubAck", "StopListening"],
+    "none": ["Listen", "ConfigReady", "CreateReply", "WaitOver", "UnsubAck", "StopListening", "StartListening", "StopListening"],
     "config": ["Listen", "ConfigReady"],
     "bind": ["Listen", "ConfigReady"],
     "reject": ["Listen", "ConfigReady", "CreateReply"],
